@@ -64,7 +64,7 @@ def run_item(item):
     vs, s = sym_sequence(I, N)
     I.solver.add(composition(vs, a, b))
     want = region_exact(a, b, N)
-    rng = random.Random(N * 10007 + a * 101 + b)
+    rng = seeded_rng(N * 10007 + a * 101 + b)
 
     def thunk():
         sp = I.call(SequenceParameters, [s], {})
